@@ -42,7 +42,7 @@ theorem delayed_refund_only_recorded {s0 s' : St} {p : Packet} {refund : Bool}
       · cases h
       · rename_i s2 he
         cases h
-        rcases eibcOnRefund_ok he with e | ⟨o, e⟩
+        rcases eibcOnRefund_ok (eibcRefundHandler_ok he) with e | ⟨o, e⟩
         · rw [e]; exact recorded_save s0 p
         · rw [e]; exact recorded_save s0 p
     · cases h; exact recorded_save s0 p
